@@ -77,6 +77,34 @@ fn run_line(line_no: u64, line: &Value, w: &mut TraceWriter, summ: &mut Vec<Valu
     let rel = line.get("rel").and_then(|r| r.as_str()).unwrap_or("none");
     let base = line_no * 8;
     let opts = RunOpts::default();
+    if line.get("kind").and_then(|k| k.as_str()) == Some("frag") {
+        let c = Cfg { json: cfgv.clone() };
+        let a = exec::run_frag_instance(base, &c, &calls);
+        summ.push(summarise(line_no, line, &a));
+        emit(w, &a);
+        if rel == "filtered" {
+            // H' = H without the rejected writes
+            let mut kept = Vec::new();
+            let mut kept_outcomes = Vec::new();
+            for (i, call) in calls.iter().enumerate() {
+                if i >= a.outcomes.len() {
+                    break;
+                }
+                if a.outcomes[i].0 {
+                    kept.push(call.clone());
+                    kept_outcomes.push(a.outcomes[i].clone());
+                }
+            }
+            let b = exec::run_frag_instance(base + 1, &c, &kept);
+            emit(w, &b);
+            let a_kept = RunResult { events: vec![], outcomes: kept_outcomes, stats: None, bytes: a.bytes.clone(), crashed: a.crashed };
+            if !a.crashed && !b.crashed {
+                w.write(&pairs::pair_same(base, "filtered", "fragmented", &a_kept, &b, None));
+            }
+            return 2;
+        }
+        return 1;
+    }
     match rel {
         "layout" => {
             let ca = Cfg { json: with_field(&cfgv, "fast", json!(true)) };
